@@ -790,6 +790,20 @@ def sendAll (s : St) (id : ConnId) : List Rsp → St × Bool
   | m :: rest => let (s, ok) := s.send id m
                  if ok then sendAll s id rest else (s, false)
 
+/-- the tagged created-events for the existing objects: the "specific" path looks the listed uuids up,
+the scan path filters all objects -/
+def currentObjMsgs (b : Broker) (l : Listener) (cookie : Cookie) : Option (List Uuid) → List Rsp
+  | some uuids => uuids.filterMap (fun u => (AL.find? u b.objs).map (fun o => Rsp.emitBusEvent (some cookie) (.objCreated ⟨u, o.cookie⟩)))
+  | none => b.objUuids.filterMap (fun (p : Cookie × Uuid) =>
+      if l.matchesObject ⟨p.2, p.1⟩ then some (Rsp.emitBusEvent (some cookie) (.objCreated ⟨p.2, p.1⟩)) else none)
+
+def currentSvcMsgs (b : Broker) (l : Listener) (cookie : Cookie) : Option (List (Uuid × Uuid)) → List Rsp
+  | some pairs => pairs.filterMap (fun (p : Uuid × Uuid) => (AL.find? p b.svcs).map (fun sv =>
+      Rsp.emitBusEvent (some cookie) (.svcCreated ⟨⟨p.1, sv.objCookie⟩, p.2, sv.cookie⟩)))
+  | none => b.svcUuids.filterMap (fun (p : Cookie × (ObjId × Uuid × SvcInfo)) =>
+      let sid : SvcId := ⟨p.2.1, p.2.2.1, p.1⟩
+      if l.matchesService sid then some (Rsp.emitBusEvent (some cookie) (.svcCreated sid)) else none)
+
 def startBusListener (s : St) (id : ConnId) (serial : Nat) (cookie : Cookie) (scope : Scope) : H :=
   match s.conn? id with
   | none => okH s
@@ -808,17 +822,7 @@ def startBusListener (s : St) (id : ConnId) (serial : Nat) (cookie : Cookie) (sc
       | .error p, _ => .error p
       | _, .error p => .error p
       | .ok so, .ok ss =>
-        let objMsgs : List Rsp := match so with
-          | some uuids => uuids.filterMap (fun u => (AL.find? u s.b.objs).map (fun o => Rsp.emitBusEvent (some cookie) (.objCreated ⟨u, o.cookie⟩)))
-          | none => s.b.objUuids.filterMap (fun (p : Cookie × Uuid) =>
-              if l.matchesObject ⟨p.2, p.1⟩ then some (Rsp.emitBusEvent (some cookie) (.objCreated ⟨p.2, p.1⟩)) else none)
-        let svcMsgs : List Rsp := match ss with
-          | some pairs => pairs.filterMap (fun (p : Uuid × Uuid) => (AL.find? p s.b.svcs).map (fun sv =>
-              Rsp.emitBusEvent (some cookie) (.svcCreated ⟨⟨p.1, sv.objCookie⟩, p.2, sv.cookie⟩)))
-          | none => s.b.svcUuids.filterMap (fun (p : Cookie × (ObjId × Uuid × SvcInfo)) =>
-              let sid : SvcId := ⟨p.2.1, p.2.2.1, p.1⟩
-              if l.matchesService sid then some (Rsp.emitBusEvent (some cookie) (.svcCreated sid)) else none)
-        .ok (sendAll s id (objMsgs ++ svcMsgs ++ [.busListenerCurrentFinished cookie]))
+        .ok (sendAll s id (currentObjMsgs s.b l cookie so ++ currentSvcMsgs s.b l cookie ss ++ [.busListenerCurrentFinished cookie]))
 
 def stopBusListener (s : St) (id : ConnId) (serial : Nat) (cookie : Cookie) : H :=
   match s.conn? id with
